@@ -44,6 +44,26 @@ Theorem C10_listener_rescues : forall g st c cn i k cl,
 Proof. exact listener_rescues. Qed.
 Print Assumptions C10_listener_rescues.
 
+(* a caller whose channel holds a result takes it from either select: request still queued (registered, not yet handed
+   to Send) or already sent *)
+Theorem C10_failed_call_can_return : forall g st k cl r,
+  nth_error (callers st) k = Some cl -> box cl = Some r ->
+  (forall c i, pc cl = CStored c i \/ pc cl = CEnq c i ->
+     exists st', step g st (LTake k) = Some st' /\
+                 exists cl', nth_error (callers st') k = Some cl' /\ pc cl' = CRet r).
+Proof. exact failed_call_can_return. Qed.
+Print Assumptions C10_failed_call_can_return.
+
+(* rangeAndClean fails every registered caller of the connection, queued behind a blocked write or sent, and each of
+   them can return the error at once *)
+Theorem C10_clean_fails_queued_and_sent : forall g st w c cn i k cl,
+  who_pc st w = Some EClean -> who_conn st w = Some c -> nth_error (conns st) c = Some cn ->
+  In (i, k) (ktab cn) -> nth_error (callers st) k = Some cl -> (pc cl = CStored c i \/ pc cl = CEnq c i) ->
+  exists st1 st2, step g st (LCleanTake w) = Some st1 /\ step g st1 (LTake k) = Some st2 /\
+                  exists cl2, nth_error (callers st2) k = Some cl2 /\ pc cl2 = CRet RErr.
+Proof. exact clean_fails_queued_and_sent. Qed.
+Print Assumptions C10_clean_fails_queued_and_sent.
+
 (* ---------------------------------------------------------------- prompt on close *)
 (* every schedule, no guard: once a rangeAndClean on a connection has returned nobody is registered on it *)
 Theorem C10_prompt_on_close : forall g ts tr st, fix_store g = true ->
@@ -253,6 +273,18 @@ Example late_exit_keeps_replacement :
              LBegin 2; LGetConn 2] in
   match run g31 (init [false; false; false]) tr with
   | Some st => pool st = Some 1%nat /\ map pc (callers st) = [CDone RErr; CEnq 1 1; CAlloc 1 2]
+  | None => False
+  end.
+Proof. vm_compute. split; reflexivity. Qed.
+
+(* Send holds caller 0's request in a blocked write, caller 1 is queued behind it in its first select; the connection
+   dies: both are failed and both return the error *)
+Example queued_behind_blocked_write :
+  let tr := [LBegin 0; LBegin 1; LDial 0; LGetConn 1; LStore 0; LEnqueue 0; LStore 1;
+             LPeerGone 0; LRecvPoll 0; LRecvFail 0; LOnExit (WR 0); LCloseSock (WR 0); LCleanTake (WR 0); LCleanDone (WR 0);
+             LTake 1; LTake 0; LEnd 0; LEnd 1; LSendFail 0; LOnExit (WS 0); LCloseSock (WS 0); LCleanDone (WS 0)] in
+  match run g31 (init [false; false]) tr with
+  | Some st => map pc (callers st) = [CDone RErr; CDone RErr] /\ pending_total st = 0%nat
   | None => False
   end.
 Proof. vm_compute. split; reflexivity. Qed.
